@@ -160,10 +160,13 @@ impl<W: Write> RustWrite<W> {
     pub fn write_uses(&mut self, super_prefix: &str, grammar: &Grammar) -> io::Result<()> {
         // things the user wrote
         for u in &grammar.uses {
-            if u.starts_with("super::") {
-                rust!(self, "use {}{};", super_prefix, u);
+            // The text of a `use` item may end in a `//` comment (the `;` of the item can
+            // sit on a later line of the grammar); the `;` must not end up inside it.
+            let semi = if u.contains("//") { "\n;" } else { ";" };
+            if starts_with_super(u) {
+                rust!(self, "use {}{}{}", super_prefix, u, semi);
             } else {
-                rust!(self, "use {};", u);
+                rust!(self, "use {}{}", u, semi);
             }
         }
 
@@ -191,6 +194,43 @@ impl<W: Write> RustWrite<W> {
 
         Ok(())
     }
+}
+
+/// Skips whitespace and (nested) comments at the start of `text`.
+fn skip_layout(mut text: &str) -> &str {
+    loop {
+        text = text.trim_start();
+        if let Some(rest) = text.strip_prefix("//") {
+            text = rest.split_once('\n').map_or("", |(_, rest)| rest);
+        } else if let Some(rest) = text.strip_prefix("/*") {
+            let mut depth = 1;
+            let mut rest = rest;
+            while depth > 0 {
+                match (rest.find("/*"), rest.find("*/")) {
+                    (Some(open), Some(close)) if open < close => {
+                        depth += 1;
+                        rest = &rest[open + 2..];
+                    }
+                    (_, Some(close)) => {
+                        depth -= 1;
+                        rest = &rest[close + 2..];
+                    }
+                    _ => return "",
+                }
+            }
+            text = rest;
+        } else {
+            return text;
+        }
+    }
+}
+
+/// Is the path of this `use` item relative to `super`, however it is laid out
+/// (`use /* c */ super :: x`)?
+fn starts_with_super(use_text: &str) -> bool {
+    skip_layout(use_text)
+        .strip_prefix("super")
+        .is_some_and(|rest| skip_layout(rest).starts_with("::"))
 }
 
 pub struct FnHeader<'me, W: Write> {
